@@ -82,6 +82,7 @@ void explore(Options const& o, std::vector<Shim*> const& shims, std::vector<Shim
       if( a >= FX_LOWEST && a <= FX_MAX ) out.push_back(static_cast<i64>(a));
       }
     };
+  int c_scope = rec.cls("C01.isnan_or_comparison_of_fresh_result_wrong");
   for( size_t ci = 0; ci < shims.size(); ++ci )
     {
     Shim* s = shims[ci];
@@ -120,7 +121,10 @@ void explore(Options const& o, std::vector<Shim*> const& shims, std::vector<Shim
           if( !v.ok ) { i64 g1 = pout[ib]; lv.hit(cls[is_sub(op)][1][vkind(v)], order, [=]{ return mk(s, "loop", op, a, b, g1, v, "row", { to_s(op), to_s(a), to_s(b) }); }); }
           i64 g2 = s->fm_bin(op, a, b); Verdict v2 = oracle(op, a, b, g2);
           if( !v2.ok ) lv.hit(cls[is_sub(op)][0][vkind(v2)], order, [=]{ return mk(s, "vv", op, a, b, g2, v2, "vv", { to_s(op), to_s(a), to_s(b) }); });
-          n += 2;
+          // isnan() and comparisons of the fresh result evaluated in the scope of the operator must agree with the value it returns
+          u64 gm = s->fm_bin_cmpmask(op, a, b), em = expected_cmpmask(s, g2);
+          if( gm != em ) lv.hit(c_scope, order, [=]{ Example e = mk(s, "comparisons in the scope of the call", op, a, b, g2, v2, "mask", { to_s(op), to_s(a), to_s(b) }); e.expected = "comparison mask " + hex(em) + " (from the returned value)"; e.got = "mask " + hex(gm); return e; });
+          n += 3;
           }
         }
       br.flush(rec);
@@ -208,6 +212,10 @@ void replay(Options const& o, Shim* s, Recorder& rec)
            // the loop form is only meaningful with a real loop around it: replay inside a short row too
            std::vector<i64> bs { b, 0, 1, -1, b }, outs(5); s->fm_bin_row(op, a, bs.data(), 5, outs.data()); report("loop", op, a, b, outs[0]); report("loop", op, a, b, outs[4]); }
     }
+  else if( o.rcase == "mask" )
+    { int op = static_cast<int>(parse_i64(o.rin.at(0))); i64 a = parse_i64(o.rin.at(1)), b = parse_i64(o.rin.at(2)); i64 g = s->fm_bin(op, a, b); u64 gm = s->fm_bin_cmpmask(op, a, b), em = expected_cmpmask(s, g);
+      rec.add_states(1,1,1);
+      if( gm != em ) rec.viol(rec.cls("C01.isnan_or_comparison_of_fresh_result_wrong"), 0, [&]{ Verdict v = oracle(op, a, b, g); Example e = mk(s, "comparisons in the scope of the call", op, a, b, g, v, o.rcase, o.rin); e.expected = hex(em); e.got = hex(gm); return e; }); }
   else if( o.rcase == "shape" )
     {
     int si = static_cast<int>(parse_i64(o.rin.at(0))); i64 a = parse_i64(o.rin.at(1)), b = parse_i64(o.rin.at(2));
